@@ -134,6 +134,17 @@ func suiteXcrypt(c *Ctx) {
 		}
 		return b
 	}
+	// NT hash outside libxcrypt's domain (it only widens bytes): non-ASCII text is transcoded to UTF-16LE; the reference
+	// is the model, proved equal to "MD4 of the UTF-16LE encoding of the scalar values" (C03b.nthash_eq_spec)
+	for _, pw := range []string{"é", "€uro", "中文密码", "\U0001F600", "a\U0001F4A9b", "\U00010000", "\U0010FFFF", "\uFFFD", "\uD7FF\uE000", "x\xffy", "\xed\xa0\x80", "\xf0\x9f\x98", "\xc0\xaf"} {
+		h := apis["nthash"]
+		out, err := h.newHash(pw, 0, 0)
+		if err != nil {
+			continue
+		}
+		c.Op(fmt.Sprintf("newhash nthash %s 0 0 -", hx([]byte(pw))), fmt.Sprintf("ok %s 0", hx([]byte(out))))
+		c.Op(fmt.Sprintf("check nthash %s %s 0", hx([]byte(out)), hx([]byte(pw))), goCheck(h, out, pw, 0))
+	}
 	for _, scheme := range []string{"md5", "sha256", "sha512", "sha1", "sunmd5", "des", "desext", "bcrypt", "nthash"} {
 		api := apis[scheme]
 		k := 0
